@@ -419,6 +419,15 @@ fn c05_write_vectored_all_empty() {
     writev_contract::<0, 0, 0>();
 }
 
+/// vectored write [1 byte, EMPTY, 2 bytes]: the slices behind the empty one are still sent
+#[cfg_attr(kani, kani::proof)]
+#[cfg_attr(kani, kani::stub(catch_unwind, call_through))]
+#[cfg_attr(kani, kani::unwind(6))]
+#[cfg_attr(verif_replay, test)]
+fn c02_write_vectored_gap() {
+    writev_contract::<1, 0, 2>();
+}
+
 /// `do_shutdown`: first call emits exactly one Finish, later calls nothing; writes then fail
 #[cfg_attr(kani, kani::proof)]
 #[cfg_attr(kani, kani::stub(catch_unwind, call_through))]
